@@ -172,7 +172,9 @@ Definition check_marshalled_array_len (l : N) : outcome N :=
 Section Marshal.
   (* The bytes the sequence of marshal_header_* calls appends to a buffer of length 16 (reply serial,
      interface, destination, sender, member, path, error name, signature, unix_fds, each 8-aligned),
-     or None when one of the name validations fails. Its contents are the subject of C05; nothing in
+     or None when one of the name validations fails or the message lacks a header field its type requires
+     (the has_required_fields check at the top of marshal_header: InvalidHeaderFields; like every refusal it
+     returns Err before the buffer is looked at again). Its contents are the subject of C05; nothing in
      C10/C13 depends on them, so the theorems hold for every such function. *)
   Variable hdr_fields : message -> option (list N).
 
